@@ -367,12 +367,26 @@ pub fn run_c12(ctx: &Ctx) -> i32 {
     run_group(ctx, &mut rep, &g, |_, seed, trace| c12_clean_case(seed, trace));
     let g = Group { name: "controllers", cases: ctx.tier.pick(4000, 400_000), budget_s: ctx.tier.pick(10.0, 180.0), exhaustive: false };
     run_group(ctx, &mut rep, &g, |_, seed, _| c12_controller_case(seed));
+    // packets abandoned wholesale: 0-RTT rejection and Retry (the C17 worlds) and migration (the
+    // C15 worlds) with the same gate and conservation monitors switched on
+    let g = Group { name: "abandon-0rtt", cases: ctx.tier.pick(1500, 60_000), budget_s: ctx.tier.pick(8.0, 120.0), exhaustive: false };
+    run_group(ctx, &mut rep, &g, |_, seed, trace| {
+        let mut o = super::c17::case(seed, Lane::Null, trace, None);
+        o.viol.retain(|v| v.prop == "C12");
+        o
+    });
+    let g = Group { name: "abandon-migration", cases: ctx.tier.pick(300, 20_000), budget_s: ctx.tier.pick(10.0, 120.0), exhaustive: false };
+    run_group(ctx, &mut rep, &g, |_, seed, trace| {
+        let mut o = super::c15::migrate_case(seed, Lane::Null, trace);
+        o.viol.retain(|v| v.prop == "C12");
+        o
+    });
     finish(
         ctx,
         &rep,
         Finish {
             level: "exploration",
-            rule: "(gate) seeded worlds whose congestion controllers are Cubic/NewReno/BBR or a harness controller with a fixed or adversarially re-drawn window (never below two datagrams): every emitted datagram is decoded; walking the datagrams of a transmit with F_i = bytes in flight before it (probe) + counted bytes of earlier datagrams, every non-exempt ack-eliciting datagram must satisfy F_i + size < window; exempt: <= loss_probes-delta datagrams per call, the MTU probe, PATH_CHALLENGE/RESPONSE and CONNECTION_CLOSE datagrams. Conservation: no tracked packet => 0 bytes in flight (every poll), and 0 ack-eliciting packets in flight 30 s after completion. (clean-path) loss-free FIFO constant-delay network: lost_packets == 0 and congestion_events == 0. (controllers) built-in controllers driven directly with random on_sent/on_ack/on_end_acks/on_congestion_event/on_mtu_update/clone histories (RttEstimator values captured from live connections): window() >= 2 x mtu after every call; the same floor asserted in vivo by a wrapping controller.".into(),
+            rule: "(gate) seeded worlds whose congestion controllers are Cubic/NewReno/BBR or a harness controller with a fixed or adversarially re-drawn window (never below two datagrams): every emitted datagram is decoded; walking the datagrams of a transmit with F_i = bytes in flight before it (probe) + counted bytes of earlier datagrams, every non-exempt ack-eliciting datagram must satisfy F_i + size < window; exempt: <= loss_probes-delta datagrams per call, the MTU probe, PATH_CHALLENGE/RESPONSE and CONNECTION_CLOSE datagrams. Conservation: no tracked packet => 0 bytes in flight (every poll), and 0 ack-eliciting packets in flight 30 s after completion. (clean-path) loss-free FIFO constant-delay network: lost_packets == 0 and congestion_events == 0. (controllers) built-in controllers driven directly with random on_sent/on_ack/on_end_acks/on_congestion_event/on_mtu_update/clone histories (RttEstimator values captured from live connections): window() >= 2 x mtu after every call; the same floor asserted in vivo by a wrapping controller. (abandon-0rtt / abandon-migration) the 0-RTT worlds of C17 (rejection discards every early packet, Retry re-sends them) and the migration worlds of C15 under the same gate and conservation monitors.".into(),
             assumptions: vec![
                 "a packet counts towards bytes in flight iff it has an ack-eliciting frame or PADDING (quinn's rule, re-derived from the decoded frames)".into(),
                 "transmits during which the client discards its Initial keys are only checked up to that datagram".into(),
